@@ -76,9 +76,9 @@ int main(void)
    if (line.len > 100) { respond("x"); continue; }
    if (line.s[line.len - 1]) { respond("x"); continue; } /* impossible */
    for (i = 5;i < line.len - 1;++i)
-     if ((unsigned char) (line.s[i] - '0') > 9)
-      { respond("x"); continue; }
-   if (!scan_ulong(line.s + 5,&id)) { respond("x"); continue; }
+     if ((unsigned char) (line.s[i] - '0') > 9) break;
+   if (i < line.len - 1) { respond("x"); continue; }
+   if (scan_ulong(line.s + 5,&id) != line.len - 6) { respond("x"); continue; }
    if (byte_equal(line.s,5,"foop/"))
     {
 #define U(prefix,flag) fmtqfn(fnbuf,prefix,id,flag); \
@@ -87,7 +87,7 @@ if (unlink(fnbuf) == -1) if (errno != error_noent) { respond("!"); continue; }
      U("mess/",1)
      respond("+");
     }
-   else if (byte_equal(line.s,4,"todo/"))
+   else if (byte_equal(line.s,5,"todo/"))
     {
      U("intd/",0)
      U("todo/",0)
